@@ -111,6 +111,10 @@ func (w *world) scheduleBy(now timing.VTimeInPicoSec, c Child, bySecondary bool)
 		return
 	}
 
+	if now+timing.VTimeInPicoSec(c.Delta) < now {
+		return // there is no time after the largest one: the child does not exist
+	}
+
 	e := &evt{time: now + timing.VTimeInPicoSec(c.Delta), secondary: c.Secondary, tag: c.Tag, ord: len(w.recs)}
 	r := &evRec{time: uint64(e.time), secondary: c.Secondary}
 	if bySecondary {
